@@ -486,7 +486,8 @@ class CFG:
         d = next(iter(defs))
         if d.kind != 'stmt' or d is n or self.def_value(d, name) is None:
             return None
-        if name in self._params or not self.dominates(d, n):
+        # (a parameter that is re-bound: its initial value cannot reach n because the one binding dominates n)
+        if not self.dominates(d, n):
             return None
         return d
 
@@ -515,7 +516,16 @@ class CFG:
         aliases of pure chains are replaced by the chain, loop variables by elem(<iterable>)."""
         return ast.unparse(self._canon(n, expr, depth))
 
-    def _canon(self, n, expr, depth):
+    def symbolic(self, n: Node, expr, depth=8):
+        """expr at n written out in terms of the parameters ($1, $2 ..): every local with one dominating definition is
+        replaced by its defining expression (any expression, not only attribute chains), recursively; comprehension variables
+        are renamed $c0, $c1 ...  Only meaningful for side-effect free code: it ignores when a sub-expression was evaluated."""
+        return alpha(self._canon(n, expr, depth, any_rhs=True))
+
+    def symbolic_text(self, n: Node, expr, depth=8) -> str:
+        return ast.unparse(self.symbolic(n, expr, depth))
+
+    def _canon(self, n, expr, depth, any_rhs=False):
         g = self
         params = [a.arg for a in self.fn.args.posonlyargs + self.fn.args.args + self.fn.args.kwonlyargs]
 
@@ -523,22 +533,22 @@ class CFG:
             def visit_Name(self, node):  # noqa: N802
                 if not isinstance(node.ctx, ast.Load):
                     return node
-                if node.id in params:
+                d = g.unique_def(n, node.id) if depth > 0 else None
+                if node.id in params and d is None:
                     i = params.index(node.id)
                     return node if (i == 0 and node.id in ('self', 'cls')) else ast.Name(id=f'${i}', ctx=ast.Load())
                 if depth <= 0:
                     return node
-                d = g.unique_def(n, node.id)
                 if d is not None:
                     v = g.def_value(d, node.id)
-                    if _pure_chain(v):
-                        return g._canon(d, v, depth - 1)  # noqa: SLF001
+                    if any_rhs or _pure_chain(v):
+                        return g._canon(d, v, depth - 1, any_rhs)  # noqa: SLF001
                     return node
                 defs = g._rd(node.id).get(n.id, set())  # noqa: SLF001
                 if len(defs) == 1:
                     f = next(iter(defs))
                     if f.kind == 'for' and g.dominates(f, n):
-                        it = g._canon(f, f.stmt.iter, depth - 1)  # noqa: SLF001
+                        it = g._canon(f, f.stmt.iter, depth - 1, any_rhs)  # noqa: SLF001
                         tgt = f.stmt.target
                         if isinstance(tgt, ast.Name):
                             return ast.Call(func=ast.Name(id='elem', ctx=ast.Load()), args=[it], keywords=[])
@@ -744,6 +754,35 @@ class CFG:
                 if suffix is None or txt.endswith(suffix):
                     out.append((w, txt))
         return out
+
+
+def alpha(e):
+    """Rename comprehension variables to $c0, $c1 .. in order of appearance (returns a new tree)."""
+    e = clone(e)
+    counter = [0]
+
+    def visit(node, env):
+        if isinstance(node, (ast.ListComp, ast.SetComp, ast.GeneratorExp, ast.DictComp)):
+            env = dict(env)
+            for gen in node.generators:
+                visit(gen.iter, env)
+                for t in ast.walk(gen.target):
+                    if isinstance(t, ast.Name):
+                        env[t.id] = f'$c{counter[0]}'
+                        counter[0] += 1
+                visit(gen.target, env)
+                for c in gen.ifs:
+                    visit(c, env)
+            for f in ('elt', 'key', 'value'):
+                if hasattr(node, f):
+                    visit(getattr(node, f), env)
+            return
+        if isinstance(node, ast.Name) and node.id in env:
+            node.id = env[node.id]
+        for c in ast.iter_child_nodes(node):
+            visit(c, env)
+    visit(e, {})
+    return e
 
 
 def _const_truth(e):
